@@ -110,7 +110,15 @@ def install(I):
     def defaultdict(I, args, kwargs):
         raise Unsupported("defaultdict")
 
+    def np_log(I, args, kwargs):
+        import math
+        if isinstance(args[0], (int, float)):
+            return math.log(args[0])
+        raise Unsupported("numpy.log of non-constant")
+
     ext.update({
+        "numpy.log": np_log,
+        "math.log": np_log,
         "functools.partial": partial,
         "typing.cast": cast,
         "copy.copy": copy_,
